@@ -80,7 +80,7 @@ def obligations(tier):
                     for passing in (('pos',) if po else ('pos', 'named')):
                         obs.append({'h': 'validate', 'disp': disp, 'params': [[fa, False, va], [fb, True, vb]], 'passing': passing,
                                     'extra': extra, 'po': po})
-        for extra in ('ctx', 'excluded', 'unknown', 'strict'):
+        for extra in ('ctx', 'excluded', 'unknown', 'strict', 'ctxexcl'):
             for frag, vk, passing in it.product(('integer', 'enum', 'string'), ('int', 'str'), ('pos', 'named')):
                 obs.append({'h': 'validate', 'disp': disp, 'params': [[frag, False, vk]], 'passing': passing, 'extra': extra})
         if tier == 'thorough':
@@ -166,16 +166,18 @@ def h_validate(ob):
             extra, dep_mid = 'excluded', True
         else:
             dep_mid = False
-        validator = jsv_mod.JsonSchemaValidator(exclude_param=(lambda name, ann, default: name == 'dep') if extra == 'excluded' else None)
+        has_ctx = extra in ('ctx', 'ctxexcl')     # 'ctxexcl': a context parameter AND a parameter removed by the predicate
+        has_excl = extra in ('excluded', 'ctxexcl')
+        validator = jsv_mod.JsonSchemaValidator(exclude_param=(lambda name, ann, default: name == 'dep') if has_excl else None)
         log = []
         sig = []
-        if extra == 'ctx':
+        if has_ctx:
             sig.append('ctx')
         for i, (n, p) in enumerate(zip(names, params)):
             if dep_mid and i == 1:
                 sig.append("dep='injected'")
             sig.append(n + ("='D'" if p[1] else ''))
-        if extra == 'excluded' and "dep='injected'" not in sig:
+        if has_excl and "dep='injected'" not in sig:
             sig.append("dep='injected'")
         allnames = [s.split('=')[0] for s in sig]
         kw = 'async def' if is_async else 'def'
@@ -184,7 +186,7 @@ def h_validate(ob):
         meth = validator.validate(ns['meth'], schema=schema)
         wire = Wire(env)
         d = (pjrpc.server.AsyncDispatcher if is_async else pjrpc.server.Dispatcher)(**wire.kwargs())
-        d.add(meth, name='meth', context='ctx' if extra == 'ctx' else None)
+        d.add(meth, name='meth', context='ctx' if has_ctx else None)
         # ---- the call ------------------------------------------------------------------------------
         vals = []
         for n, p in zip(names, params):
@@ -203,8 +205,9 @@ def h_validate(ob):
                 wire_params = plist + [0]
                 provided_extra = True
                 binds = False                      # one positional value too many (no parameter left to take it)
-            if extra == 'excluded':
-                pass
+            if has_excl and all(v is not None for v in vals) and env.bool('client_sends_dep_pos'):
+                wire_params = list(wire_params) + ['client-dep']       # one positional value more: would land in the excluded parameter
+                binds = False
         else:
             mapping = {}
             for n, v in zip(names, vals):
@@ -215,11 +218,11 @@ def h_validate(ob):
             if extra == 'unknown':
                 mapping = {**mapping, 'zz': 0}
                 binds = False
-            if extra == 'ctx':
+            if has_ctx:
                 if env.bool('client_sends_ctx'):
                     mapping = {**mapping, 'ctx': 'client-ctx'}
                     binds = False
-            if extra == 'excluded':
+            if has_excl:
                 if env.bool('client_sends_dep'):
                     mapping = {**mapping, 'dep': 'client-dep'}
                     binds = False
